@@ -69,6 +69,14 @@ def debounceKind : Kind where
                         sawSupersede := st.sawSupersede || sup },
         model := some [.int m'.now],
         tags := if sup then ["debounce:call-supersedes-pending"] else ["debounce:call"] }
+    -- a burst issued by several goroutines at one virtual instant counts as one call of the history
+    | "parcall", [_, _], [.int _] =>
+      let m' := dstep st.wait st.m .call
+      let sup := st.m.pending.isSome
+      { st := { st with mon := st.mon.push .call, m := m', callPos := st.callPos.push st.m.n,
+                        sawSupersede := st.sawSupersede || sup },
+        model := some [.int m'.now],
+        tags := if sup then ["debounce:parcall"] else ["debounce:parcall"] }
     | "cancel", [], [.int _] =>
       let m' := dstep st.wait st.m .cancel
       let pend := st.m.pending.isSome
@@ -116,19 +124,17 @@ def delayKind : Kind where
     | "sleep", [.int ms], _ =>
       if ms < 0 then { st := st, bad := some "delay: negative sleep" } else
       let m' := lstep st.m (.advance ms.toNat)
-      { st := { st with m := m', mon := { st.mon with now := st.mon.now + ms } },
+      { st := { st with m := m', mon := st.mon.onSleep ms.toNat },
         tags := if m'.fired.length > st.m.fired.length then ["delay:fire"] else ["delay:sleep"] }
     | "delay", [.int d], [.int _, .int _] =>
       let m' := lstep st.m (.delay d)
-      let t : LTimer := { id := st.mon.timers.length, d := d, tc := st.mon.now }
-      { st := { st with m := m', mon := { st.mon with timers := st.mon.timers ++ [t] } },
+      { st := { st with m := m', mon := st.mon.onDelay d },
         model := some [.int m'.now, .int st.m.nextId],
         tags := if d ≤ 0 then ["delay:non-positive"] else ["delay:delay"] }
     | "stop", [.int id], [.int _, .atom _] =>
       if id < 0 then { st := st, bad := some "delay: negative id" } else
       let m' := lstep st.m (.stop id.toNat)
-      let mon' := { st.mon with timers := st.mon.timers.map fun t =>
-        if t.id == id.toNat && t.stopped.isNone then { t with stopped := some st.mon.now } else t }
+      let mon' := st.mon.onStop id.toNat
       let r : Val := match m'.lastStop with
         | some b => Val.ofBool b
         | none => .atom "none"
@@ -146,7 +152,7 @@ def delayKind : Kind where
         match conv with
         | none => { st := st, model := some mans, spec := some "delay:unknown-timer" }
         | some log' =>
-          { st := { st with mon := { st.mon with seen := log' } }, model := some mans,
+          { st := { st with mon := st.mon.observe log' }, model := some mans,
             spec := st.mon.onFired log',
             nontrivial := st.m.fired.length ≥ 2 && st.stoppedPending }
     | _, _, _ => { st := st, bad := some s!"delay line {l.op}" }
